@@ -343,7 +343,7 @@ func main() {
 				R.NT(mc.HS("stream", fmt.Sprint(c)))
 			}
 			R.State(mc.HS("stream", fmt.Sprint(c)))
-			if m := runSampler(c); m != "" {
+			if m := mc.Safe(func() string { return runSampler(c) }); m != "" {
 				var hs []string
 				for _, v := range c {
 					hs = append(hs, v.Text(16))
@@ -402,7 +402,7 @@ func main() {
 		if secec.VerifNewDrbgRFC6979 != nil {
 			for reads := 1; reads <= 8; reads++ {
 				R.T(1)
-				if m := runDRBG(k.d, e, reads); m != "" {
+				if m := mc.Safe(func() string { return runDRBG(k.d, e, reads) }); m != "" {
 					R.Mismatch(fmt.Sprintf("rfc6979/generator/reads=%d", reads), "drbg", m, mc.D{"x": mc.HexBig(k.d), "e": mc.HexBig(e), "reads": reads})
 				}
 				if reads > 1 {
@@ -411,7 +411,7 @@ func main() {
 			}
 		}
 		R.T(1)
-		if m := runRFC6979Sign(k.d, k.dg); m != "" {
+		if m := mc.Safe(func() string { return runRFC6979Sign(k.d, k.dg) }); m != "" {
 			R.Mismatch("rfc6979/sign", "rfc6979", m, mc.D{"d": mc.HexBig(k.d), "digest": mc.Hex(k.dg)})
 		}
 		R.State(mc.H(k.d.Bytes(), k.dg))
@@ -444,7 +444,7 @@ func main() {
 	mc.Par(len(trs), func(i int) {
 		t := trs[i]
 		R.T(int64(2 + len(mc.DeliveryModes()) + 33*4))
-		if m := runHedged(t.d, t.digest, t.ent); m != "" {
+		if m := mc.Safe(func() string { return runHedged(t.d, t.digest, t.ent) }); m != "" {
 			R.Mismatch("hedged/"+t.ent, "hedged", m, mc.D{"d": mc.HexBig(t.d), "digest": mc.Hex(t.digest), "src": t.ent})
 		}
 		r, _, _, err := signWith(t.d, t.digest, mc.Script{Src: t.ent, Mode: "full", FailAfter: -1})
